@@ -23,8 +23,8 @@ func VH_C12_Pairs() {
 	conf := vhConf(st)
 	conf.Storage.GC.GracePeriod = time.Minute
 	conf.Storage.GC.RepoUploadMax = 1
-	pair := vh.Choice("pair", 9)
-	names := []string{"write-vs-expiry-timer", "write-vs-count-eviction", "complete-vs-expiry-timer", "cancel-vs-expiry-timer", "request-vs-collection", "close-vs-request", "close-vs-collection-tick", "mount-vs-collection", "mount-vs-close"}
+	pair := vh.Choice("pair", 10)
+	names := []string{"write-vs-expiry-timer", "write-vs-count-eviction", "complete-vs-expiry-timer", "cancel-vs-expiry-timer", "request-vs-collection", "close-vs-request", "close-vs-collection-tick", "mount-vs-collection", "mount-vs-close", "complete-vs-expiry-timer-vs-collection"}
 	vh.Tag("pair", names[pair])
 	if pair >= 4 {
 		conf.Storage.GC.Frequency = time.Second
@@ -36,7 +36,14 @@ func VH_C12_Pairs() {
 	vh.Assert(r.Status() == 202, "C12.setup")
 	vh.Sched()
 	d := digest.Canonical.FromBytes([]byte("y"))
+	// the session becomes old enough to expire either before the racing request starts
+	// (the request's own lookup then counts as a use) or while it is being served (the
+	// timer thread moves the clock: the lookup is older than the age when the timer fires)
+	late := (pair <= 3 && pair != 1 || pair == 9) && vh.Bool("clockMovesDuringRequest")
 	fireTimers := func() {
+		if late {
+			vclock.Advance(2 * time.Minute)
+		}
 		for _, t := range vclock.Armed() {
 			if f := t.Func(); f != nil {
 				f()
@@ -47,7 +54,9 @@ func VH_C12_Pairs() {
 	switch pair {
 	case 0:
 		// the session has become old enough to expire; a chunk arrives while the timer fires
-		vclock.Advance(2 * time.Minute)
+		if !late {
+			vclock.Advance(2 * time.Minute)
+		}
 		vh.Preempt(switches)
 		vh.Go(func() { vhDo(s, "PATCH", "/v2/a/blobs/uploads/"+id, vhQ("state", vhStateToken(0)), nil, []byte("y")) })
 		vh.Go(fireTimers)
@@ -57,14 +66,18 @@ func VH_C12_Pairs() {
 		vh.Go(func() { vhDo(s, "PATCH", "/v2/a/blobs/uploads/"+id, vhQ("state", vhStateToken(0)), nil, []byte("y")) })
 		vh.Go(func() { vhDo(s, "POST", "/v2/a/blobs/uploads/", nil, nil, nil) })
 	case 2:
-		vclock.Advance(2 * time.Minute)
+		if !late {
+			vclock.Advance(2 * time.Minute)
+		}
 		vh.Preempt(switches)
 		vh.Go(func() {
 			vhDo(s, "PUT", "/v2/a/blobs/uploads/"+id, vhQ("state", vhStateToken(0), "digest", d.String()), nil, []byte("y"))
 		})
 		vh.Go(fireTimers)
 	case 3:
-		vclock.Advance(2 * time.Minute)
+		if !late {
+			vclock.Advance(2 * time.Minute)
+		}
 		vh.Preempt(switches)
 		vh.Go(func() { vhDo(s, "DELETE", "/v2/a/blobs/uploads/"+id, nil, nil, nil) })
 		vh.Go(fireTimers)
@@ -110,6 +123,22 @@ func VH_C12_Pairs() {
 			vhDo(s, "POST", "/v2/b/blobs/uploads/", vhQ("mount", digest.Canonical.FromBytes([]byte("{}")).String(), "from", "a"), nil, nil)
 		})
 		vh.Go(func() { _ = s.Close() })
+	case 9:
+		// three parties: the last PUT of the session, the expiry timer of that same
+		// session, and the store-wide collection (upload lock, cache lock, repository lock)
+		if !late {
+			vclock.Advance(2 * time.Minute)
+		}
+		vh.Preempt(switches)
+		vh.Go(func() {
+			vhDo(s, "PUT", "/v2/a/blobs/uploads/"+id, vhQ("state", vhStateToken(0), "digest", d.String()), nil, []byte("y"))
+		})
+		vh.Go(func() {
+			for _, t := range vclock.Tickers() {
+				t.Tick()
+			}
+		})
+		vh.Go(fireTimers)
 	}
 	vh.Join()
 	if pair < 4 {
